@@ -18,7 +18,7 @@ statements or splits work over helpers (helpers are already spliced in by sa/inl
 import ast
 
 from .model import unparse, dotted
-from .symeval import SymEval, alternatives
+from .symeval import SymEval, alternatives, elem_of
 
 
 class Hit(object):
@@ -277,7 +277,7 @@ class PathExec(object):
       return env
     if node.kind == 'loop' and isinstance(node.owner, (ast.For, ast.AsyncFor)):
       env = dict(env)
-      self._bind(node.owner.target, ('elem', self.ev(node.owner.iter, env)), env)
+      self._bind(node.owner.target, elem_of(self.ev(node.owner.iter, env)), env)
       return env
     if node.kind == 'handler' and a is not None and a.name:
       env = dict(env)
